@@ -204,21 +204,429 @@ func c09Frozen(p *Prog) *RuleResult {
 }
 
 func c09CloneSteps(p *Prog) *RuleResult {
-	r := NewRule("C09/R2b clone-steps", "the clone steps the frozen-AST table relies on exist")
+	r := NewRule("C09/R2b clone-steps", "every container the frozen-AST rule treats as cloned is in fact replaced by a fresh copy in CloneLinkerGraph (and the per-build import-record clone exists in parseFile): deleting a clone step turns the dependent post-parse writes into cache corruption")
+	frzProg = p
+	clg := p.FindFunc("graph.CloneLinkerGraph")
+	if !r.Anchor("graph.CloneLinkerGraph", clg != nil) {
+		return r
+	}
+	fns := withClosures(clg)
+	if nsm := p.FindFunc("ast.NewSymbolMap"); r.Anchor("ast.NewSymbolMap", nsm != nil) {
+		fns = append(fns, withClosures(nsm)...)
+	}
+	// field stores with fresh values
+	freshFieldStores := map[string]string{}
+	freshElemStores := map[string]string{}
+	reprClones := map[string]string{}
+	for _, fn := range fns {
+		eachInstr(fn, func(b *ssa.BasicBlock, in ssa.Instruction) {
+			st, ok := in.(*ssa.Store)
+			if !ok {
+				return
+			}
+			switch a := st.Addr.(type) {
+			case *ssa.FieldAddr:
+				key := namedTypeName(a.X.Type()) + "." + fieldAddrName(a)
+				if frzFreshValue(st.Val, 0) {
+					freshFieldStores[key] = p.Pos(st.Pos())
+				}
+				if key == "graph.InputFile.Repr" {
+					if mi, ok := st.Val.(*ssa.MakeInterface); ok {
+						if al, ok := mi.X.(*ssa.Alloc); ok && al.Heap {
+							reprClones[namedTypeName(al.Type())] = p.Pos(st.Pos())
+						}
+					}
+				}
+			case *ssa.IndexAddr:
+				steps := addrChain(a)
+				for _, s := range steps {
+					if s.Kind == "field" {
+						if frzFreshValue(st.Val, 0) {
+							freshElemStores[s.Owner+"."+s.Name] = p.Pos(st.Pos())
+						}
+						break
+					}
+				}
+			}
+		})
+	}
+	var keys []string
+	for k := range frzClonedContainers {
+		keys = append(keys, k)
+	}
+	sort.Strings(keys)
+	for _, k := range keys {
+		r.Instances++
+		if pos, ok := freshFieldStores[k]; ok {
+			r.OK("clone of "+k, true, "fresh value stored at "+pos)
+		} else {
+			r.Fail("clone of "+k, p.Pos(clg.Pos()), "CloneLinkerGraph no longer stores a freshly allocated copy into "+k+" but post-parse code writes through it")
+		}
+	}
+	r.Instances++
+	if pos, ok := freshElemStores["ast.SymbolMap.SymbolsForSource"]; ok {
+		r.OK("per-file clone of ast.SymbolMap.SymbolsForSource[i]", true, "fresh symbol array stored at "+pos)
+	} else {
+		r.Fail("per-file clone of ast.SymbolMap.SymbolsForSource[i]", p.Pos(clg.Pos()), "the per-file symbol array is not a fresh copy (append([]ast.Symbol{}, ...)) but the linker mutates symbols")
+	}
+	for _, t := range []string{"graph.JSRepr", "graph.CSSRepr"} {
+		r.Instances++
+		if pos, ok := reprClones[t]; ok {
+			r.OK("clone of "+t, true, "copy of the representation stored into InputFile.Repr at "+pos)
+		} else {
+			r.Fail("clone of "+t, p.Pos(clg.Pos()), "the file representation "+t+" is not copied before the linker mutates it")
+		}
+	}
+	// the bundler's own per-build clone of the import records (they are resolved in place)
+	pf := p.FindFunc("bundler.parseFile")
+	if r.Anchor("bundler.parseFile", pf != nil) {
+		r.Instances++
+		found := ""
+		for _, fn := range withClosures(pf) {
+			eachInstr(fn, func(b *ssa.BasicBlock, in ssa.Instruction) {
+				st, ok := in.(*ssa.Store)
+				if !ok {
+					return
+				}
+				if c, ok := st.Addr.(*ssa.Call); ok && c.Call.IsInvoke() && c.Call.Method.Name() == "ImportRecords" && frzFreshValue(st.Val, 0) {
+					found = p.Pos(st.Pos())
+				}
+			})
+		}
+		if found != "" {
+			r.OK("bundler.parseFile clones *Repr.ImportRecords()", true, "fresh copy stored through the ImportRecords() pointer at "+found)
+		} else {
+			r.Fail("bundler.parseFile clones *Repr.ImportRecords()", p.Pos(pf.Pos()), "parseFile no longer replaces the cached import records by a fresh copy before the scanner resolves them in place")
+		}
+	}
+	r.Floor(10)
 	return r
 }
 
+// file-system observing functions of the standard library
+func isFSObserver(n string) bool {
+	switch n {
+	case "os.Open", "os.OpenFile", "os.ReadFile", "os.Stat", "os.Lstat", "os.ReadDir", "os.Readlink", "os.Getwd",
+		"io/ioutil.ReadFile", "io/ioutil.ReadDir", "os.DirFS",
+		"path/filepath.EvalSymlinks", "path/filepath.Walk", "path/filepath.WalkDir", "path/filepath.Glob", "path/filepath.Abs",
+		"(*os.File).Read", "(*os.File).ReadAt", "(*os.File).Readdir", "(*os.File).Readdirnames", "(*os.File).ReadDir", "(*os.File).Stat", "(*os.File).ReadFrom",
+		"syscall.Stat", "syscall.Lstat", "syscall.Open", "syscall.Readlink", "syscall.Getcwd":
+		return true
+	}
+	return false
+}
+
+// reviewed observers outside internal/fs that are reachable on build paths: "<caller> <callee>"
+var c09FSExceptions = ExcTable{}
+
 func c09FSLayering(p *Prog) *RuleResult {
-	r := NewRule("C09/R3 fs-layering", "build paths observe the file system only through internal/fs")
+	r := NewRule("C09/R3 fs-layering", "from bundler.ScanBundle and (*Bundle).Compile no call path reaches a file-system observing function of the standard library except inside internal/fs, so every observation a build makes is made by the FS object whose WatchData() the context keeps")
+	scan := p.FindFunc("bundler.ScanBundle")
+	compile := p.FindFunc("bundler.(*Bundle).Compile")
+	if !r.Anchor("bundler.ScanBundle", scan != nil) || !r.Anchor("bundler.(*Bundle).Compile", compile != nil) {
+		return r
+	}
+	fsPkg := modPath + "/internal/fs"
+	stop := func(fn *ssa.Function) bool {
+		pp := pkgPathOf(fn)
+		return pp == fsPkg || !strings.HasPrefix(pp, modPath)
+	}
+	parent := p.reachableFrom([]*ssa.Function{scan, compile}, stop)
+	nfun := 0
+	for fn := range parent {
+		if p.InModule(fn) {
+			nfun++
+		}
+	}
+	r.Note("functions reachable from ScanBundle/Compile (excluding internal/fs): %d", nfun)
+	if !r.Anchor("reachable set is non-trivial", nfun > 800) {
+		return r
+	}
+	// positive control: internal/fs itself must contain observers (else the matcher went blind)
+	inFS := 0
+	for _, s := range p.sitesOf(isFSObserver) {
+		if pkgPathOf(s.Caller) == fsPkg {
+			inFS++
+			continue
+		}
+		r.Instances++
+		key := FuncName(s.Caller) + " " + s.Callee
+		if _, reach := parent[s.Caller]; !reach {
+			r.OK(key+" (not on a build path)", false, "")
+			continue
+		}
+		if r.CheckExc(c09FSExceptions, key) {
+			continue
+		}
+		r.Fail(key, p.Pos(s.Instr.Pos()), "file-system observation outside internal/fs on a build path (not recorded in watch data): "+chainTo(parent, s.Caller))
+	}
+	r.Instances += inFS
+	if inFS < 8 {
+		r.Fail("C09/R3 positive-control", "-", "fewer than 8 observer call sites found inside internal/fs: the matcher went blind")
+	} else {
+		r.OK("internal/fs observer sites (positive control)", true, "observer call sites inside internal/fs: counted, all allowed by layer")
+	}
+	for _, s := range p.funcValueRefs(isFSObserver) {
+		if pkgPathOf(s.Caller) != fsPkg {
+			if _, reach := parent[s.Caller]; reach {
+				r.Fail(FuncName(s.Caller)+" value "+s.Callee, p.Pos(s.Caller.Pos()), "file-system observer used as a function value on a build path")
+			}
+		}
+	}
+	r.StaleCheck(c09FSExceptions)
 	return r
+}
+
+type watchSpec struct {
+	fn      string
+	observe func(ssa.Instruction) bool
+	what    string
+	gate    string // field whose nil check guards recording
+	record  func(ssa.Instruction) bool
+	recWhat string
 }
 
 func c09WatchRecording(p *Prog) *RuleResult {
-	r := NewRule("C09/R4 watch-recording", "every observing FS path records watch data")
+	r := NewRule("C09/R4 watch-recording", "every path from a file-system observation in realFS.ReadFile/ReadDirectory/ModKey and DirEntries.Get/SortedKeys to a return passes the `watch data enabled?` test, and its enabled branch always records the observation; WatchData() turns every recorded state into a change predicate")
+	isCallNamed := func(names ...string) func(ssa.Instruction) bool {
+		return func(in ssa.Instruction) bool {
+			c, ok := in.(ssa.CallInstruction)
+			if !ok {
+				return false
+			}
+			n := calleeFullName(c)
+			for _, x := range names {
+				if n == x {
+					return true
+				}
+			}
+			return false
+		}
+	}
+	mapUpdateOn := func(field string) func(ssa.Instruction) bool {
+		return func(in ssa.Instruction) bool {
+			mu, ok := in.(*ssa.MapUpdate)
+			if !ok {
+				return false
+			}
+			_, n, ok := loadedField(mu.Map)
+			return ok && n == field
+		}
+	}
+	fsp := modPath + "/internal/fs"
+	specs := []watchSpec{
+		{"fs.(*realFS).ReadFile", isCallNamed("io/ioutil.ReadFile", "os.ReadFile"), "ioutil.ReadFile", "watchData", mapUpdateOn("watchData"), "fs.watchData[path] = ..."},
+		{"fs.(*realFS).ReadDirectory", isCallNamed("(*" + fsp + ".realFS).readdir"), "fs.readdir", "watchData", mapUpdateOn("watchData"), "fs.watchData[dir] = ..."},
+		{"fs.(*realFS).ModKey", isCallNamed(fsp + ".modKey"), "modKey", "watchData", mapUpdateOn("watchData"), "fs.watchData[path] = ..."},
+		{"fs.(DirEntries).Get", func(in ssa.Instruction) bool {
+			l, ok := in.(*ssa.Lookup)
+			if !ok {
+				return false
+			}
+			_, n, ok := loadedField(l.X)
+			return ok && n == "data"
+		}, "entries.data[key]", "accessedEntries", mapUpdateOn("wasPresent"), "accessed.wasPresent[key] = ..."},
+		{"fs.(DirEntries).SortedKeys", func(in ssa.Instruction) bool {
+			rg, ok := in.(*ssa.Range)
+			if !ok {
+				return false
+			}
+			_, n, ok := loadedField(rg.X)
+			return ok && n == "data"
+		}, "range entries.data", "accessedEntries", func(in ssa.Instruction) bool {
+			st, ok := in.(*ssa.Store)
+			if !ok {
+				return false
+			}
+			fa, ok := st.Addr.(*ssa.FieldAddr)
+			return ok && fieldAddrName(fa) == "allEntries"
+		}, "accessedEntries.allEntries = keys"},
+	}
+	for _, sp := range specs {
+		fn := p.FindFunc(sp.fn)
+		if !r.Anchor(sp.fn, fn != nil) {
+			continue
+		}
+		r.Instances++
+		// locate observation sites, gate blocks, record blocks
+		var obs []ssa.Instruction
+		gateTrue := map[*ssa.BasicBlock]*ssa.BasicBlock{} // gate block -> successor where recording is enabled
+		recordBlocks := map[*ssa.BasicBlock]bool{}
+		eachInstr(fn, func(b *ssa.BasicBlock, in ssa.Instruction) {
+			if sp.observe(in) {
+				obs = append(obs, in)
+			}
+			if ifi, ok := in.(*ssa.If); ok {
+				if nonNilOnTrue, ok := nilCheckOfField(ifi.Cond, sp.gate); ok {
+					if nonNilOnTrue {
+						gateTrue[b] = b.Succs[0]
+					} else {
+						gateTrue[b] = b.Succs[1]
+					}
+				}
+			}
+			if sp.record(in) {
+				recordBlocks[b] = true
+			}
+		})
+		if len(obs) == 0 {
+			r.Fail(sp.fn+" observation "+sp.what, p.Pos(fn.Pos()), "observation site not found (rule cannot be decided)")
+			continue
+		}
+		if len(gateTrue) == 0 {
+			r.Fail(sp.fn+" gate "+sp.gate, p.Pos(fn.Pos()), "no `"+sp.gate+" != nil` test found: observations are not recorded for watch mode")
+			continue
+		}
+		for _, o := range obs {
+			key := sp.fn + " " + sp.what + " → gate"
+			ob := o.Block()
+			startSafe := true
+			if _, isGate := gateTrue[ob]; isGate {
+				// gate is the block terminator, after the observation: path passes it
+				r.OK(key, true, "gate terminates the observing block")
+				continue
+			}
+			path, bad := reachesExitAvoiding(ob, isReturnBlock, func(b *ssa.BasicBlock) bool { _, g := gateTrue[b]; return g }, startSafe)
+			if bad {
+				r.Fail(key, p.Pos(o.Pos()), "a path from the observation "+sp.what+" reaches a return without testing "+sp.gate+" (blocks "+blockPath(path)+"): the observation is not recorded for watch mode")
+			} else {
+				r.OK(key, true, "every path from "+sp.what+" to a return passes the `"+sp.gate+" != nil` test")
+			}
+		}
+		for g, succ := range gateTrue {
+			key := sp.fn + " gate → " + sp.recWhat
+			path, bad := reachesExitAvoiding(succ, isReturnBlock, func(b *ssa.BasicBlock) bool { return recordBlocks[b] }, false)
+			if bad {
+				r.Fail(key, p.Pos(g.Instrs[len(g.Instrs)-1].Pos()), "with watch data enabled a path reaches a return without recording ("+sp.recWhat+"), blocks "+blockPath(path))
+			} else {
+				r.OK(key, true, "with watch data enabled every path records: "+sp.recWhat)
+			}
+		}
+	}
+	// WatchData covers every watch state
+	wd := p.FindFunc("fs.(*realFS).WatchData")
+	pk := p.ByPath[fsp]
+	if r.Anchor("fs.(*realFS).WatchData", wd != nil && pk != nil) {
+		consts := constsOfType(pk.Types, "watchState")
+		r.Anchor("fs.watchState constants", len(consts) >= 6)
+		compared := map[int64]*ssa.BasicBlock{}
+		eachInstr(wd, func(b *ssa.BasicBlock, in ssa.Instruction) {
+			ifi, ok := in.(*ssa.If)
+			if !ok {
+				return
+			}
+			if bo, ok := ifi.Cond.(*ssa.BinOp); ok && bo.Op == token.EQL && namedTypeName(bo.X.Type()) == "fs.watchState" {
+				if v, ok := constInt(bo.Y); ok {
+					compared[v] = b.Succs[0]
+				} else if v, ok := constInt(bo.X); ok {
+					compared[v] = b.Succs[0]
+				}
+			}
+		})
+		var names []string
+		for n := range consts {
+			names = append(names, n)
+		}
+		sort.Strings(names)
+		for _, n := range names {
+			if n == "stateNone" {
+				continue
+			}
+			r.Instances++
+			key := "fs.(*realFS).WatchData case " + n
+			succ, ok := compared[consts[n]]
+			if !ok {
+				r.Fail(key, p.Pos(wd.Pos()), "watch state "+n+" is recorded by the FS but WatchData() has no case for it: edits to such paths are never detected")
+				continue
+			}
+			if n == "stateFileNeedModKey" {
+				r.OK(key, true, "state is rewritten into a final state before the switch")
+				continue
+			}
+			if blockHas(succ, func(in ssa.Instruction) bool { _, ok := in.(*ssa.MapUpdate); return ok }) {
+				r.OK(key, true, "case installs a change predicate into the result map")
+			} else {
+				r.Fail(key, p.Pos(wd.Pos()), "case for "+n+" does not install a change predicate")
+			}
+		}
+	}
+	r.Floor(10)
 	return r
 }
 
+func blockPath(bs []*ssa.BasicBlock) string {
+	s := ""
+	for i, b := range bs {
+		if i > 0 {
+			s += "→"
+		}
+		s += b.String()
+	}
+	return s
+}
+
 func c09RuntimeCacheKey(p *Prog) *RuleResult {
-	r := NewRule("C09/R5 runtime-cache-key", "the global runtime AST cache depends only on its key")
+	r := NewRule("C09/R5 runtime-cache-key", "the process-global runtime AST cache entry depends only on its key: every option passed to the parser and the argument of runtime.Source come from the key struct or are constants")
+	fn := p.FindFunc("bundler.(*runtimeCache).parseRuntime")
+	if !r.Anchor("bundler.(*runtimeCache).parseRuntime", fn != nil) {
+		return r
+	}
+	var keyAlloc, optAlloc *ssa.Alloc
+	eachInstr(fn, func(b *ssa.BasicBlock, in ssa.Instruction) {
+		if al, ok := in.(*ssa.Alloc); ok {
+			switch namedTypeName(al.Type()) {
+			case "bundler.runtimeCacheKey":
+				keyAlloc = al
+			case "config.Options":
+				optAlloc = al
+			}
+		}
+	})
+	if !r.Anchor("runtimeCacheKey local", keyAlloc != nil) || !r.Anchor("config.Options literal", optAlloc != nil) {
+		return r
+	}
+	fromKey := func(v ssa.Value) (string, bool) {
+		switch x := v.(type) {
+		case *ssa.Const:
+			return "constant", true
+		case *ssa.UnOp:
+			if fa, ok := x.X.(*ssa.FieldAddr); ok && fa.X == keyAlloc {
+				return "key." + fieldAddrName(fa), true
+			}
+		}
+		return "", false
+	}
+	eachInstr(fn, func(b *ssa.BasicBlock, in ssa.Instruction) {
+		switch x := in.(type) {
+		case *ssa.Store:
+			if fa, ok := x.Addr.(*ssa.FieldAddr); ok && fa.X == optAlloc {
+				r.Instances++
+				key := "parseRuntime config.Options." + fieldAddrName(fa)
+				if w, ok := fromKey(x.Val); ok {
+					r.OK(key, true, "set from "+w)
+				} else {
+					r.Fail(key, p.Pos(x.Pos()), "parser option of the globally cached runtime AST is set from a value that is not part of the cache key")
+				}
+			}
+		case *ssa.Call:
+			if calleeFullName(x) == modPath+"/internal/runtime.Source" {
+				r.Instances++
+				if w, ok := fromKey(x.Call.Args[0]); ok {
+					r.OK("parseRuntime runtime.Source argument", true, "from "+w)
+				} else {
+					r.Fail("parseRuntime runtime.Source argument", p.Pos(x.Pos()), "runtime source is selected by a value that is not part of the cache key")
+				}
+			}
+			if calleeFullName(x) == modPath+"/internal/js_parser.OptionsFromConfig" {
+				r.Instances++
+				if x.Call.Args[0] == optAlloc {
+					r.OK("parseRuntime OptionsFromConfig argument", true, "the key-only options literal")
+				} else {
+					r.Fail("parseRuntime OptionsFromConfig argument", p.Pos(x.Pos()), "parser options are not the key-only literal")
+				}
+			}
+		}
+	})
+	r.Floor(5)
 	return r
 }
